@@ -3,6 +3,7 @@
 package gbn
 
 import (
+	"context"
 	"sync"
 	"time"
 )
@@ -258,4 +259,45 @@ func VH_C18_LoopVsSetter() {
 	}()
 	wg.Wait()
 	vReach("loop-vs-setter")
+}
+
+// VH_C18_PongVsPacket: "timer expiries that coincide with packet arrivals".
+// Only the client pings (1 s / 1 s); the peer's answer to the first ping
+// arrives exactly when the pong timeout expires, or a little earlier / later
+// (symbolic choice), so that the send loop's handling of the expired pong
+// timer and the receive loop's handling of the packet (which touches the same
+// tickers) run against each other in either order; then the connection is
+// closed. Nothing may panic (close of a closed channel, use of a stopped
+// ticker) or deadlock, whichever loop wins.
+func VH_C18_PongVsPacket() {
+	ping, pong := time.Second, time.Second
+	p := &vPair{c2s: newLink("c2s", 0), s2c: newLink("s2c", 0)}
+	p.ctx, p.cancel = context.WithCancel(context.Background())
+	off := [3]time.Duration{-time.Millisecond, 0, time.Millisecond}[vIntRange("offset", 0, 2)]
+	// packet 0 from the server is its SYN; packet 1 is the answer to the
+	// client's first ping
+	p.s2c.latFn = func(i int) time.Duration {
+		if i == 1 {
+			return pong + off
+		}
+		return 0
+	}
+	done := make(chan struct{}, 2)
+	go func() {
+		p.srv, p.srvErr = NewServerConn(p.ctx, p.s2c.send, p.c2s.recv, WithTimeoutOptions(WithStaticResendTimeout(30*time.Second)))
+		done <- struct{}{}
+	}()
+	go func() {
+		p.cli, p.cliErr = NewClientConn(p.ctx, 2, p.c2s.send, p.s2c.recv, WithTimeoutOptions(WithStaticResendTimeout(30*time.Second), WithKeepalivePing(ping, pong)))
+		done <- struct{}{}
+	}()
+	<-done
+	<-done
+	if p.cliErr != nil || p.srvErr != nil {
+		return
+	}
+	time.Sleep(ping + pong + 2*time.Second)
+	vReach("pong-vs-packet")
+	p.shutdown()
+	time.Sleep(2 * time.Second)
 }
